@@ -170,6 +170,7 @@ func (s *ProxyServiceWrapper) createProxyConfiguration() *proxy.Configuration {
 		ResponseTimeout:     s.config.ResponseTimeout,
 		ReadTimeout:         s.config.ReadTimeout,
 		StreamBufferSize:    s.config.StreamBufferSize,
+		Profile:             s.config.Profile,
 	}
 }
 
